@@ -45,27 +45,27 @@ Fixpoint drain (r : rdr) : bytes :=
   | RNop => []
   | RBytes l => l
   | RFile l => l
-  | RLim r limit => firstn (Z.to_nat limit) (drain r)
+  | RLim r limit => firstnN (Z.to_N limit) (drain r)
   | RPre p r => p ++ drain r
   end.
 
 (* Seek(k, io.SeekCurrent), k >= 0; None = the call returns an error *)
-Fixpoint seek (r : rdr) (k : nat) : option rdr :=
+Fixpoint seek (r : rdr) (k : N) : option rdr :=
   match r with
   | RNop => None
-  | RBytes l => Some (RBytes (skipn k l))
-  | RFile l => Some (RFile (skipn k l))
+  | RBytes l => Some (RBytes (skipnN k l))
+  | RFile l => Some (RFile (skipnN k l))
   | RLim r limit =>
-    if (limit <? Z.of_nat k)%Z then None
+    if (limit <? Z.of_N k)%Z then None
     else match seek r k with
-         | Some r' => Some (RLim r' (limit - Z.of_nat k))
+         | Some r' => Some (RLim r' (limit - Z.of_N k))
          | None => None
          end
   | RPre p r =>
-    let s := Nat.min (length p) k in
-    if Nat.eqb k s then Some (RPre (skipn s p) r)
+    let s := N.min (lenN p) k in
+    if (k =? s)%N then Some (RPre (skipnN s p) r)
     else match seek r (k - s) with
-         | Some r' => Some (RPre (skipn s p) r')
+         | Some r' => Some (RPre (skipnN s p) r')
          | None => None
          end
   end.
@@ -94,46 +94,47 @@ Definition max_int64 : N := 9223372036854775807.
 
 Definition too_big (off ln : N) : bool := ((max_int64 <? off) || (max_int64 <? ln))%N%bool.
 
-Definition lenN (l : bytes) : N := N.of_nat (length l).
 
 (* the part of shiftPayloadRangeStream after the payload prefix has been isolated:
    [pp] = payload bytes already buffered *)
 Definition shift_buffered (pp : bytes) (pldLen : N) (stream : option rdr) (off ln : N) : shres :=
+  let lp := lenN pp in
   match stream with
   | None =>
-    if negb (lenN pp =? pldLen)%N then ShErr EOther
+    if negb (lp =? pldLen)%N then ShErr EOther
     else if (off =? 0)%N then
       if (ln =? 0)%N then ShOk (RBytes pp)
-      else if (ln <=? lenN pp)%N then ShOk (RBytes (firstn (N.to_nat ln) pp))
+      else if (ln <=? lp)%N then ShOk (RBytes (firstnN ln pp))
       else ShPanic (* nil stream used *)
     else
       (* prefix[off:][:ln] *)
-      if (lenN pp <? off)%N then ShPanic
-      else if (lenN pp - off <? ln)%N then ShPanic
-      else ShOk (RBytes (firstn (N.to_nat ln) (skipn (N.to_nat off) pp)))
+      if (lp <? off)%N then ShPanic
+      else if (lp - off <? ln)%N then ShPanic
+      else ShOk (RBytes (firstnN ln (skipnN off pp)))
   | Some st =>
     if (off =? 0)%N then
       if (ln =? 0)%N then
         match pp with [] => ShOk st | _ => ShOk (RPre pp st) end
-      else if (ln <=? lenN pp)%N then ShOk (RBytes (firstn (N.to_nat ln) pp))
+      else if (ln <=? lp)%N then ShOk (RBytes (firstnN ln pp))
       else if too_big off ln then ShErr EOther
       else match pp with
            | [] => ShOk (RLim st (Z.of_N ln))
-           | _ => ShOk (RPre pp (RLim st (Z.of_N ln - Z.of_nat (length pp))))
+           | _ => ShOk (RPre pp (RLim st (Z.of_N ln - Z.of_N lp)))
            end
     else
       if too_big off ln then ShErr EOther
-      else if (lenN pp <=? off)%N then
-        if (lenN pp <? off)%N then
-          match seek st (N.to_nat off - length pp) with
+      else if (lp <=? off)%N then
+        if (lp <? off)%N then
+          match seek st (off - lp) with
           | None => ShErr EOther
           | Some st' => ShOk (RLim st' (Z.of_N ln))
           end
         else ShOk (RLim st (Z.of_N ln))
       else
-        let pp' := skipn (N.to_nat off) pp in
-        if (ln <=? lenN pp')%N then ShOk (RBytes (firstn (N.to_nat ln) pp'))
-        else ShOk (RPre pp' (RLim st (Z.of_N ln - Z.of_nat (length pp'))))
+        let pp' := skipnN off pp in
+        let lp' := (lp - off)%N in
+        if (ln <=? lp')%N then ShOk (RBytes (firstnN ln pp'))
+        else ShOk (RPre pp' (RLim st (Z.of_N ln - Z.of_N lp')))
   end.
 
 (* [pfo] = offset of the payload length varint in [prefix] (tag offset + tag length),
@@ -163,8 +164,9 @@ Definition shift_payload_range_stream (prefix : bytes) (pldLen : N) (pfo : optio
     end
   end.
 
-Definition shift_stream_to_range (prefix : bytes) (pldLen : N) (mode a b : N) (stream : option rdr) : shres :=
-  match seek_field prefix f_obj_payload with
+(* the part of shiftStreamToRange that looks only at the head buffer *)
+Definition shift_with (sk : seekres) (prefix : bytes) (pldLen : N) (mode a b : N) (stream : option rdr) : shres :=
+  match sk with
   | SErr => ShErr EOther
   | SFound o tagln typ =>
     if negb (typ =? ty_bytes)%N then ShErr EOther
@@ -180,6 +182,9 @@ Definition shift_stream_to_range (prefix : bytes) (pldLen : N) (mode a b : N) (s
     | RsOk off ln => shift_payload_range_stream prefix pldLen None stream off ln
     end
   end.
+
+Definition shift_stream_to_range (prefix : bytes) (pldLen : N) (mode a b : N) (stream : option rdr) : shres :=
+  shift_with (seek_field prefix f_obj_payload) prefix pldLen mode a b stream.
 
 (* payload length announced by the header found in the head buffer
    (readPayloadRange / ReadObjectParts): header field bounds, then field 5 of it *)
@@ -197,12 +202,16 @@ Definition header_payload_len (prefix : bytes) : plres :=
     end
   end.
 
-(* FSTree.readPayloadRange after _readObject returned (prefix, stream) *)
-Definition range_of_head (prefix : bytes) (stream : option rdr) (mode a b : N) : shres :=
-  match header_payload_len prefix with
+(* FSTree.readPayloadRange after _readObject returned (prefix, stream); the two scans
+   of the head buffer are passed in so that they can be shared between queries *)
+Definition range_with (pl : plres) (sk : seekres) (prefix : bytes) (stream : option rdr) (mode a b : N) : shres :=
+  match pl with
   | PlErr => ShErr EOther
-  | PlOk pldLen _ => shift_stream_to_range prefix pldLen mode a b stream
+  | PlOk pldLen _ => shift_with sk prefix pldLen mode a b stream
   end.
+
+Definition range_of_head (prefix : bytes) (stream : option rdr) (mode a b : N) : shres :=
+  range_with (header_payload_len prefix) (seek_field prefix f_obj_payload) prefix stream mode a b.
 
 (* PayloadRange.IsSet && !IsFull *)
 Definition partial_range (mode a b : N) : bool :=
